@@ -492,6 +492,12 @@ def c18 : List String → String
   | ["lockverify", ref, cur, lim] => (match strOfHex ref, strOfHex cur, lim.toInt? with
      | some r, some c, some l => Api.render (ApiReq.encLockVerify r c l) | _, _, _ => "bad-op")
   | ["verify", o] => (match parseObj o with | some o => Api.render (ApiReq.encVerify o) | none => "bad-op")
+  | ["adapter", avail, answers] =>
+    -- names are plain tokens here (basic, tus); `-` = an answer without a `transfer` member
+    let av := avail.splitOn ","
+    let an := (answers.splitOn ",").map fun a => if a == "-" then "" else a
+    (match ApiReq.adapterAfter av none an with
+     | some a => a | none => "none")
   | ["hashalgo", a] => (match strOfHex a with
      | some a => if ApiReq.acceptsHashAlgo a then "accept" else "reject" | none => "bad-op")
   | ["validate", sch, body] => (match schemaByName sch, parseJ body.toList with
